@@ -13,6 +13,7 @@ mod locks;
 mod reader;
 mod conc;
 mod expr;
+mod codec;
 mod obs;
 mod prng;
 mod proto;
@@ -109,6 +110,7 @@ fn main() {
         "c13" => conc::run_c13(&args, &mut model),
         "c15" => conc::run_c15(&args, &mut model),
         "c10" | "c11" | "expr-child" => expr::run(&args, &mut model),
+        "c05" | "c18" => codec::run(&args, &mut model),
         f => {
             eprintln!("unknown family {}", f);
             std::process::exit(2);
